@@ -17,7 +17,8 @@ EXPLANATION = ("TLS streams: the pump between the SSL object and the transport -
                "EndOfStream, other SSL errors propagate; syscall/OS errors map to BrokenResourceError; both BIOs are sealed on fatal errors; "
                "receive validates and forwards max_bytes and turns an empty read into EndOfStream; aclose performs the closing handshake iff "
                "standard_compatible and force-closes the transport if it fails; wrap re-enables unexpected-EOF detection on contexts it creates "
-               "and completes the handshake through the same pump.")
+               "and completes the handshake through the same pump."
+               " The only write to an SSL context's settings is wrap() clearing OP_IGNORE_UNEXPECTED_EOF on the context it created itself.")
 NOT_DECIDED = ("Anything inside OpenSSL (record/chunk alignment at run time), user-supplied SSLContext objects that keep "
                "OP_IGNORE_UNEXPECTED_EOF set, loss of already decrypted data when the flush after a successful read is cancelled.")
 
